@@ -91,7 +91,33 @@ func (v verificationMethodValidator) Validate(document did.Document) error {
 			return fmt.Errorf("invalid verificationMethod: %w", err)
 		}
 	}
+	// A verification relationship either references an entry of verificationMethod (then it points to that entry)
+	// or embeds a verification method of its own. The same rules apply to embedded methods.
+	relationships := []did.VerificationRelationships{document.Authentication, document.AssertionMethod, document.KeyAgreement, document.CapabilityInvocation, document.CapabilityDelegation}
+	for _, relationship := range relationships {
+		for _, rel := range relationship {
+			if rel.VerificationMethod == nil || v.isListed(document, rel.VerificationMethod) {
+				continue
+			}
+			if err := verifyDocumentEntryID(document.ID, rel.VerificationMethod.ID.URI(), map[string]bool{}); err != nil {
+				return fmt.Errorf("invalid verificationMethod: %w", err)
+			}
+			if err := v.verifyThumbprint(rel.VerificationMethod); err != nil {
+				return fmt.Errorf("invalid verificationMethod: %w", err)
+			}
+		}
+	}
 	return nil
+}
+
+// isListed tells whether method is an entry of the document's verificationMethod list (and not a copy with the same ID).
+func (v verificationMethodValidator) isListed(document did.Document, method *did.VerificationMethod) bool {
+	for _, listed := range document.VerificationMethod {
+		if listed == method {
+			return true
+		}
+	}
+	return false
 }
 
 func (v verificationMethodValidator) verifyThumbprint(method *did.VerificationMethod) error {
